@@ -160,9 +160,13 @@ def zone_value(avoid=frozenset()):
         fence = "`" * n
         # a content line must not look like a fence of equal or greater length (the format cannot hold it)
         lines = [ln for ln in lines if not re.match(r"^ *`{%d,}" % n, ln)]
-        return {"v": "zone", "content": "\n".join(lines), "tag": tag, "fence": fence}
+        if lines == [""] and "zone_one_blank" in avoid:
+            lines = []
+        # `lines` is the ground truth (a zone holding one empty line differs from the empty zone only there)
+        return {"v": "zone", "content": "\n".join(lines), "tag": tag, "fence": fence, "lines": lines}
     tags = st.sampled_from([None, None, "python", "json5+x", "sh", "text"])
-    return st.builds(mk, st.lists(line, min_size=0, max_size=5), tags, st.sampled_from([3, 3, 3, 4, 5, 6]))
+    return st.builds(mk, st.one_of(st.lists(line, min_size=0, max_size=5), st.lists(line, min_size=2, max_size=6),
+                                   st.lists(line, min_size=1, max_size=3)), tags, st.sampled_from([3, 3, 3, 4, 5, 6]))
 
 
 def holo_value(avoid=frozenset()):
@@ -173,6 +177,9 @@ def holo_value(avoid=frozenset()):
     chain = st.lists(st.sampled_from(CHAIN_POOL), min_size=1, max_size=3, unique=True)
     tgt = st.one_of(st.none(), st.none(), st.sampled_from(["SELF", "INDEXER", "META"]))
     return st.builds(lambda e, c, t: {"v": "holo", "example": e, "chain": c, "target": t}, ex, chain, tgt)
+
+
+ZONE_WEIGHT = [1]  # module-level knob: C05 raises it so that most documents carry several zones
 
 
 def value(depth: int = 2, avoid=frozenset(), zones: bool = False, holo: bool = True):
@@ -187,7 +194,7 @@ def value(depth: int = 2, avoid=frozenset(), zones: bool = False, holo: bool = T
     if holo:
         opts.append(holo_value(avoid))
     if zones:
-        opts.append(zone_value(avoid))
+        opts.extend([zone_value(avoid)] * ZONE_WEIGHT[0])
     return st.one_of(*opts)
 
 
@@ -217,7 +224,7 @@ def node(depth: int, avoid=frozenset(), zones: bool = True, comments: bool = Tru
     opts = [assign, assign, assign, block, section]
     if zones and in_block:
         # bare literal zones are only a supported construct directly inside a block body
-        opts.append(st.builds(lambda z, l: {"t": "zone", "zone": z, "lead": l}, zone_value(avoid), lead1))
+        opts.extend([st.builds(lambda z, l: {"t": "zone", "zone": z, "lead": l}, zone_value(avoid), lead1)] * ZONE_WEIGHT[0])
     return st.one_of(*opts)
 
 
@@ -268,6 +275,12 @@ def pyval(V) -> Any:
     if k == "null":
         return None
     raise ValueError(k)
+
+
+def zone_lines(Z) -> list:
+    if Z.get("lines") is not None:
+        return list(Z["lines"])
+    return Z["content"].split("\n") if Z["content"] != "" else []
 
 
 def nf_value(V):
@@ -608,15 +621,16 @@ def _simpler_values(V):
                     yield {**V, "items": items[:i] + [sv] + items[i + 1:]}
         yield {"v": "str", "s": "a", "cls": "word"}
     elif k == "zone":
-        lines = V["content"].split("\n")
+        lines = zone_lines(V)
         for i in range(len(lines)):
-            yield {**V, "content": "\n".join(lines[:i] + lines[i + 1:])}
+            ls = lines[:i] + lines[i + 1:]
+            yield {**V, "content": "\n".join(ls), "lines": ls}
         if V["tag"]:
             yield {**V, "tag": None}
-        c = V["content"]
-        for i in range(len(c)):
-            if c[i] != "\n":
-                yield {**V, "content": c[:i] + c[i + 1:]}
+        for i, ln in enumerate(lines):
+            for j in range(len(ln)):
+                ls = lines[:i] + [ln[:j] + ln[j + 1:]] + lines[i + 1:]
+                yield {**V, "content": "\n".join(ls), "lines": ls}
     elif k == "holo":
         yield {"v": "str", "s": "a", "cls": "word"}
         if len(V["chain"]) > 1:
